@@ -61,6 +61,7 @@ type kase struct {
 	lines     []string
 	snap      log_buffer.VerifSnap
 	diskCount int
+	dw        *diskWorld // disk cases: the real Filer this case runs on (disk.go)
 }
 
 func newCase() *kase {
@@ -160,6 +161,9 @@ func (c *kase) exec(op []string) []string {
 		}
 		v, _ := strconv.ParseInt(op[i], 10, 64)
 		return v
+	}
+	if strings.HasPrefix(op[0], "d") && c.dw != nil {
+		return c.execDisk(op, arg)
 	}
 	switch op[0] {
 	case "add":
@@ -402,11 +406,19 @@ func replay(ops [][]string) []string {
 	flush := func() {
 		if c != nil {
 			lines = append(lines, c.lines...)
-			c.close()
+			if c.dw == nil {
+				c.close()
+			}
 			c = nil
 		}
 	}
 	for _, op := range ops {
+		if op[0] == "dreset" {
+			flush()
+			c = diskInit().newCase()
+			c.lines = append(c.lines, strings.Join(dresetLine(), " ")+" =>")
+			continue
+		}
 		if op[0] == "reset" {
 			flush()
 			c = newCase()
@@ -446,6 +458,7 @@ func main() {
 			tr.Op(fs[0], fs[1:], strings.Fields(outs))
 		}
 	}
+	defer diskClose()
 	if a.Ops != "" {
 		emit(replay(hx.ReadOps(a.Ops)))
 		return
@@ -466,6 +479,10 @@ func main() {
 	wg.Wait()
 	for _, l := range results {
 		emit(l)
+	}
+	// the persisted-log path: sequential cases on one real Filer (disk.go)
+	for i := 0; i < a.N(40); i++ {
+		emit(genDiskCase(a.Seed*1000003 + 500000 + uint64(i)))
 	}
 	_ = os.Stdout
 }
